@@ -111,3 +111,47 @@ def jacobian(patch, sampler, k, plan, base=None):
     if not cols:
         return None, offs
     return torch.stack(cols, -1), offs
+
+
+class ciq_recorder:
+    """Record the quadrature rule contour_integral_quad builds when the right-hand side has extra leading dimensions
+    (the sampler's sample axis), together with the rule the SAME function builds for the first slice of that rhs alone
+    (no extra dimension: its broadcast branch is not executed).  zero_mean_mvn_samples imports the function at call time,
+    so replacing the module attribute is enough (no repo hook).  rules: list of dicts
+    {Q, k (= product of the extra dims), B, w (Q,B), sh (Q+1,B), W (Q,k,B), S (Q+1,k,B)} as flat float lists."""
+
+    def __init__(self, limit=2):
+        self.rules, self.limit, self.errors = [], limit, []
+
+    def __enter__(self):
+        import importlib
+        # (linear_operator.utils re-exports the function under the submodule's name: go through sys.modules)
+        mod = importlib.import_module("linear_operator.utils.contour_integral_quad")
+        self.mod, self.real = mod, mod.contour_integral_quad
+        real, rec = self.real, self
+
+        def wrapper(linear_op, rhs, *a, **kw):
+            out = real(linear_op, rhs, *a, **kw)
+            try:
+                extra = rhs.dim() - linear_op.dim()
+                if extra > 0 and kw.get("weights") is None and kw.get("shifts") is None and len(a) < 2 \
+                        and len(rec.rules) < rec.limit:
+                    ref = real(linear_op, rhs[(0,) * extra], *a, **kw)
+                    w, sh, W, S = ref[1], ref[3], out[1], out[3]
+                    B = int(math.prod(linear_op.batch_shape))
+                    k = int(math.prod(rhs.shape[:extra]))
+                    rec.rules.append({"Q": int(w.shape[0]), "k": k, "B": B,
+                                      "w": [float(x) for x in w.reshape(-1).tolist()],
+                                      "sh": [float(x) for x in sh.reshape(-1).tolist()],
+                                      "W": [float(x) for x in W.reshape(-1).tolist()],
+                                      "S": [float(x) for x in S.reshape(-1).tolist()],
+                                      "W_shape": [int(x) for x in W.shape], "S_shape": [int(x) for x in S.shape]})
+            except Exception as ex:       # the recorder must never change the outcome of the run
+                rec.errors.append(repr(ex)[:200])
+            return out
+        mod.contour_integral_quad = wrapper
+        return self
+
+    def __exit__(self, *a):
+        self.mod.contour_integral_quad = self.real
+        return False
